@@ -55,9 +55,15 @@ def cases(tier, seed):
         else:
             s["n_inputs"] = R.choice([1, 2, 3, 4, 6, 8]) if prof != "stall" else R.choice([6, 8])
             s["fmt_bu"] = R.random() < 0.5
+            s["small"] = prof in ("late_check", "slow_feeder", "stall", "slow_dispatcher") and R.random() < 0.7
             if prof == "burst":
                 s["par"] = 8
         out.append(s)
+    # the shutdown window of the multi-image stages exists only for inputs that fit into the pipe buffer (the flush of a
+    # larger one waits for a reader): small inputs, few workers, workers descheduled right after an empty poll
+    for i in range(14 if tier == "quick" else 200):
+        out.append(dict(stage=["mtan", "mwcs"][i % 2], profile="late_check", par=R.choice([2, 2, 3]), seed=R.randrange(1 << 30), long_item=False, kill_item=False,
+                        n_inputs=R.choice([2, 3, 4, 6]), fmt_bu=R.random() < 0.5, small=True))
     return out
 
 
@@ -104,9 +110,9 @@ def _generic_history_checks(recs, v):
     return puts, gets
 
 
-def _run(fn, log, par, kind="producer"):
+def _run(fn, log, par, kind="producer", hostile=None):
     if par > 1:
-        return models.run_stage(fn, log, kind, watchdog=120)
+        return models.run_stage(fn, log, kind, watchdog=120, hostile=hostile)
     evlog.ev("stage_call")
     try:
         fn()
@@ -169,7 +175,7 @@ def case_leaves(spec, workdir):
                 os.kill(os.getpid(), _signal.SIGKILL)
             evlog.ev("cb_end", pos=p)
 
-        outcome, info = _run(lambda: pyr.visit_leaves(cb, parallel=par), log, par)
+        outcome, info = _run(lambda: pyr.visit_leaves(cb, parallel=par), log, par, hostile=(dict(seed=spec["seed"], p=0.03, files=("pyramid.py", "par_util.py", "multi_tan.py", "multi_wcs.py"), lo=0.001, hi=0.06, budget=1.0) if spec["seed"] % 4 == 0 else None))
         recs = evlog.read(log)
         evlog.close_log()
         res[tag] = (outcome, info, recs, log)
@@ -259,7 +265,7 @@ def case_transform(spec, workdir):
                 evlog.ev("cb_end", pos=p)
 
             fn = lambda: transform._do_a_transform(pin, depth, lambda: None, do_one, pio_out=pout, parallel=par)
-        outcome, info = _run(fn, log, par)
+        outcome, info = _run(fn, log, par, hostile=(dict(seed=spec["seed"], p=0.03, files=("pyramid.py", "par_util.py", "multi_tan.py", "multi_wcs.py"), lo=0.001, hi=0.06, budget=1.0) if spec["seed"] % 4 == 0 else None))
         recs = evlog.read(log)
         evlog.close_log()
         res[tag] = (outcome, info, recs, log)
@@ -312,14 +318,15 @@ def case_multi(spec, workdir):
 
     R = random.Random(spec["seed"])
     n = spec["n_inputs"]
-    W, H = R.randrange(300, 900), R.randrange(300, 700)
+    small = bool(spec.get("small"))  # inputs whose pickled form fits into the pipe buffer: the flush does not wait for a reader
+    W, H = (R.randrange(300, 900), R.randrange(300, 700)) if not small else (R.randrange(260, 420), R.randrange(260, 420))
     rects = []
     for i in range(n):
-        w, h = R.randrange(120, min(420, W)), R.randrange(120, min(420, H))
+        w, h = (R.randrange(120, min(420, W)), R.randrange(120, min(420, H))) if not small else (R.randrange(24, 70), R.randrange(24, 70))
         rects.append((R.randrange(0, W - w + 1), R.randrange(0, H - h + 1), w, h))
     # make sure the union spans the mosaic corners so that the global size is W x H
     rects[0] = (0, 0, rects[0][2], rects[0][3])
-    rects.append((W - 130, H - 125, 130, 125))
+    rects.append((W - 130, H - 125, 130, 125) if not small else (W - 40, H - 36, 40, 36))
     npr = np.random.default_rng(spec["seed"])
     mosaic = npr.normal(size=(H, W)).astype(np.float32)
     ind = os.path.join(workdir, "in")
@@ -357,7 +364,7 @@ def case_multi(spec, workdir):
                 return np.full(shape_out, val)
 
             fn = lambda: proc.tile(pio, rf, parallel=par)
-        outcome, info = _run(fn, log, par)
+        outcome, info = _run(fn, log, par, hostile=(dict(seed=spec["seed"], p=0.03, files=("pyramid.py", "par_util.py", "multi_tan.py", "multi_wcs.py"), lo=0.001, hi=0.06, budget=1.0) if spec["seed"] % 4 == 0 else None))
         recs = evlog.read(log)
         evlog.close_log()
         res[tag] = (outcome, info, recs, log, proc)
@@ -478,7 +485,7 @@ def _result(spec, v, recs, log, items, shape):
     counters["runs_%s_%s" % (spec["stage"], spec["profile"])] += 1
     counters["runs_profile_" + spec["profile"]] += 1
     counters["runs_k%d" % spec["par"]] += 1
-    for k in ("events", "worker_timeouts", "timeouts_while_pending", "timeouts_before_event_set", "timeouts_after_event_set", "owner_puts_delayed_gt5ms", "put_full"):
+    for k in ("events", "worker_timeouts", "timeouts_while_pending", "timeouts_before_event_set", "timeouts_after_event_set", "owner_puts_delayed_gt5ms", "put_full", "statement_delays"):
         counters["log_" + k] = lc.get(k, 0)
     counters["max_concurrent_callbacks"] = lc.get("max_concurrent_callbacks", 0)
     counters["items_checked"] += items
